@@ -95,8 +95,9 @@ def line_case(draw):
 def source_case(draw):
     n = draw(st.integers(0, 12))
     return {'name': draw(names),
-            'x': draw(st.floats(-360., 360., allow_nan=False)),
-            'y': draw(st.floats(-90., 90., allow_nan=False)),
+            # sky coordinates in any convention, and pixel-like coordinates of a few thousand
+            'x': draw(st.one_of(st.floats(-360., 360., allow_nan=False), st.floats(-20000., 20000., allow_nan=False))),
+            'y': draw(st.one_of(st.floats(-90., 90., allow_nan=False), st.floats(-20000., 20000., allow_nan=False))),
             'valid': draw(st.lists(st.sampled_from(ALLOWED), min_size=n, max_size=n)),
             'flux': draw(st.lists(values, min_size=n, max_size=n)),
             'error': draw(st.lists(values, min_size=n, max_size=n)),
